@@ -163,6 +163,12 @@ class Run:
             self.obligations.extend(obs)
         t = time.time()
         solve.solve_all(self.obligations, timeout_s=timeout)
+        # second pass: what was left open (solver budget hit, e.g. on a loaded machine) is retried alone, with four times
+        # the budget and little parallelism, before it counts as undischarged
+        open_obs = [o for o in self.obligations if o.result == "unknown"]
+        if open_obs:
+            self.notes.append(f"{len(open_obs)} path VCs left open by the first pass were retried with a {4 * timeout} s budget")
+            solve.solve_all(open_obs, timeout_s=4 * timeout, jobs=4)
         self.solver_time = time.time() - t
         self.groups = solve.group(self.obligations)
         for extra in self.prop.get("extra", []):
@@ -272,7 +278,33 @@ class Run:
 
     def ledger_names(self):
         led = load_json(LEDGER, {})
-        return set(led.get(self.pid, {}).keys())
+        return set(k for k in led.get(self.pid, {}).keys() if k != "__sources__")
+
+    def source_fingerprint(self):
+        """What the obligations of this property are generated from: the source text of every function verified or
+        inlined, the contract modules, and the verifier itself."""
+        h = {}
+        for f in self.functions:
+            if f.get("source_sha256"):
+                h[f["function"]] = f["source_sha256"]
+            for q in f.get("inlined", []):
+                try:
+                    h[q] = self.world.function(q).source_sha()
+                except Exception:
+                    h[q] = "?"
+        files = [os.path.join(VERIF, m.replace(".", "/") + ".py") for m in self.prop.get("contract_modules", [])]
+        files += sorted(os.path.join(VERIF, "pyvc", x) for x in os.listdir(os.path.join(VERIF, "pyvc")) if x.endswith(".py"))
+        for p in files:
+            try:
+                with open(p, "rb") as fh:
+                    h[os.path.relpath(p, VERIF)] = hashlib.sha256(fh.read()).hexdigest()
+            except OSError:
+                h[os.path.relpath(p, VERIF)] = "?"
+        return h
+
+    def same_sources_as_ledger(self):
+        led = load_json(LEDGER, {}).get(self.pid, {}).get("__sources__")
+        return bool(led) and led == self.source_fingerprint()
 
     def decide(self):
         ledger = self.ledger_names()
@@ -336,6 +368,12 @@ class Run:
             return
         rep["reproduced"] = False
         in_ledger = [n for n in names if n in ledger]
+        if in_ledger and all(ob.result != "sat" for _, obs in items for ob in obs) and self.same_sources_as_ledger():
+            # nothing the proof is generated from has changed since the ledger was written and no counter-model
+            # exists: the solvers ran out of budget - undecided, not a violation
+            self.undecided.append({"obligations": in_ledger, "why": "solver budget exhausted on an obligation discharged before, "
+                                   "with the function, its callees' contracts and the verifier unchanged (no counter-model)"})
+            return
         if in_ledger:
             path = self.write_replay(rep)
             self.violations.append({"obligations": in_ledger, "replay": path, "reproduced": False})
@@ -495,6 +533,7 @@ def main(argv=None):
     if a.update_ledger and code == 0:
         led = load_json(LEDGER, {})
         led[run.pid] = {n: round(max(o.time for o in obs), 3) for n, obs in run.groups.items()}
+        led[run.pid]["__sources__"] = run.source_fingerprint()
         led[run.pid].update(run.extra_cov.get("ledger", {}))
         os.makedirs(os.path.dirname(LEDGER), exist_ok=True)
         with open(LEDGER, "w") as f:
